@@ -529,20 +529,28 @@ def adaptor_rx_fidelity(tree, ob):
     remembers numbers drops new bundles. '''
     CLA = 'bp/cla.py'
     n = 0
-    for cls in [c for c in tree.module(CLA).tree.body if isinstance(c, ast.ClassDef)]:
-        for m in [x for x in cls.body if isinstance(x, ast.FunctionDef) and x.name == '_handle_recv_bundle_finish']:
+    cands = []
+    for (r_, q_, f_) in tree.all_functions([CLA]):
+        if f_.name in ('_handle_recv_bundle_finish', 'handle_recv_bundle_finish'):
+            cands.append((q_, f_))
+    for (qual, m) in cands:
+        if True:
             n += 1
-            qual = cls.name + '.' + m.name
             fv = FuncView(tree, CLA, qual)
-            ob.require(len(m.args.args) >= 2, qual + '(self, bid, ...)')
-            bid = m.args.args[1].arg
+            params = [a.arg for a in m.args.args if a.arg != 'self']
+            ob.require(len(params) >= 1, qual + '(bid, ...)')
+            bid = params[0]
             ups = [c for c in calls_in(m) if isinstance(c.func, ast.Attribute) and c.func.attr == 'recv_bundle_finish' and src(c.func.value) == 'self']
             up = one(ups, 'hand-over to the agent in ' + qual, ob)
             val = fv.value_at(up.args[0], up, depth=4) if up.args else None
             txt = src(val) if val is not None else ''
-            want = ('bytes(self.agent_obj.recv_bundle_pop_data({}))'.format(bid), 'self.agent_obj.recv_bundle_pop_data({})'.format(bid), "b''.join(self.agent_obj.recv_bundle_pop_data({}))".format(bid))
-            rets = [r for r in walk_local(m) if isinstance(r, ast.Return)]
-            cond = [(t, p) for (t, p) in (fv.facts(up) or ()) if not t.startswith('isinstance(')]
+            want = tuple(w.format(o, bid) for o in ('self.agent_obj', 'conn_iface') for w in ('bytes({}.recv_bundle_pop_data({}))', 'dbus.ByteArray({}.recv_bundle_pop_data({}))', '{}.recv_bundle_pop_data({})', "b''.join({}.recv_bundle_pop_data({}))"))
+            # the TCPCL announcement carries a result: anything but 'success' is no bundle (the only test the handlers make)
+            def about_result(t):
+                return "'success'" in t and len(params) >= 3 and norm.mentions(t, [params[2]])
+            rets = [r for r in walk_local(m) if isinstance(r, ast.Return) and not all(about_result(t) for (t, p) in (fv.facts(r) or ()) if not t.startswith('isinstance('))]
+            rets += [r for r in walk_local(m) if isinstance(r, ast.Return) and not [1 for (t, p) in (fv.facts(r) or ()) if not t.startswith('isinstance(')]]
+            cond = [(t, p) for (t, p) in (fv.facts(up) or ()) if not t.startswith('isinstance(') and not about_result(t)]
             if rets or cond:
                 ob.violate(CLA, qual, (src(rets[0]) if rets else 'hand-over under ' + cond[0][0])[:80], 'a finished reception is not always taken from the CL and handed to the agent (the adaptor decides by '
                            'its own bookkeeping, e.g. transfer numbers it has seen): a CL that restarts its numbering has its new bundles dropped', rets[0] if rets else up)
